@@ -208,8 +208,15 @@ def job_moment(WG, job, seed):
     # mass profile: massless / constant / varying through the wall (phi in units of the momentum scale)
     phi = [0.0 * chi, 0.7 * scale * np.ones_like(chi), scale * (1 - chi)][job["mass"]]
     fields = WG.Fields.castFromNumpy(phi[:, None])
+    carr = collision(WG, grid, parts, bN, rng)
+    # call history on this one solver, as in every iteration of the wall solver: moments were already taken once on ANOTHER
+    # background (other masses, temperature, velocity) before the background of this cell is installed
+    phi0 = 1.3 * scale * (1 + chi)
+    bs.setBackground(WG.BoltzmannBackground(-0.55, -0.55 * np.ones_like(chi), WG.Fields.castFromNumpy(phi0[:, None]), 0.8 * scale * np.ones_like(chi)))
+    bs.setCollisionArray(carr)                                       # getDeltas also evaluates the linearisation criteria
+    getDeltasNodal(from_cardinal(1e-3 * rng.normal(size=(len(parts), M - 1, N - 1, N - 1))))
+    ev["prior"] = True
     bs.setBackground(WG.BoltzmannBackground(-0.4, -0.4 * np.ones_like(chi), fields, scale * np.ones_like(chi)))
-    bs.setCollisionArray(collision(WG, grid, parts, bN, rng))        # getDeltas also evaluates the linearisation criteria
     bs = _BS()
     rz, rp = nodes(N)[1:N], nodes(N - 1)[0:N - 1]
     pz = 2 * scale * np.arctanh(rz)
